@@ -236,8 +236,18 @@ TLoaded ==
   /\ iv' = IF iv.active THEN [iv EXCEPT !.loaded = [blog |-> E.blog, dlog |-> E.dlog]] ELSE iv
   /\ UNCHANGED <<meta, g, L, F, FT, prev, relax, taint, afterCrash, tw, viol, stats>> /\ Step
 
+\* ninja dies at a named point.  Between the build-log record and the deps-log record of a command that has just finished
+\* (points fin-logappend, buildlog-record) the log record exists and the dependency record certainly does not: the statement
+\* has no recorded dependencies any more (this is knowledge about the history, not about ninja)
+TCrashEv ==
+  /\ Is("Crash")
+  /\ LET fin == IF iv.active THEN {i \in iv.doneOK : \A j \in iv.doneOK : L[j].end <= L[i].end} ELSE {}
+         hit == "point" \in DOMAIN E /\ E.point \in {"fin-logappend", "buildlog-record"}
+     IN L' = [i \in DOMAIN L |-> IF hit /\ i \in fin /\ St(g, i).deps \in {"gcc", "msvc"} THEN [L[i] EXCEPT !.rec = {}, !.recok = FALSE] ELSE L[i]]
+  /\ UNCHANGED <<meta, g, F, FT, iv, prev, relax, taint, afterCrash, tw, viol, stats>> /\ Step
+
 TSkip ==
-  /\ l <= Len(Tr) /\ E.e \in {"Scanned", "Msg", "PoolsAtEnd", "Crash", "SpawnFail", "Logs", "EndRun", "Printer", "Out"}
+  /\ l <= Len(Tr) /\ E.e \in {"Scanned", "Msg", "PoolsAtEnd", "SpawnFail", "Logs", "EndRun", "Printer", "Out"}
   /\ UNCHANGED <<meta, g, L, F, FT, iv, prev, relax, taint, afterCrash, tw, viol, stats>> /\ Step
 
 \* -- Exit ----------------------------------------------------------------------
@@ -460,7 +470,7 @@ TFlush ==
   /\ UNCHANGED <<meta, g, L, F, FT, iv, prev, relax, taint, afterCrash, tw, viol, stats>>
 
 Next == TReset \/ TEnv \/ TInvoke \/ TLoaded \/ THook \/ TStatus \/ TStart \/ TEditRun \/ TDone \/ TInterrupt
-        \/ TAbort \/ TSkip \/ TClean \/ TTool \/ TExit \/ TDied \/ TAbnormal \/ TFlush
+        \/ TAbort \/ TSkip \/ TCrashEv \/ TClean \/ TTool \/ TExit \/ TDied \/ TAbnormal \/ TFlush
 
 Spec == Init /\ [][Next]_vars
 
